@@ -18,7 +18,7 @@ use super::Rule;
 use crate::base::{ReadStat, StatNode, TokenResult, WriteStat};
 #[cfg(feature = "exporter")]
 use crate::core::base::rule::SentinelRule;
-use std::sync::{Arc, Mutex, Weak};
+use crate::vsync::{Arc, Mutex, Weak};
 
 /// Traffic Shaping `Calculator` calculates the actual traffic shaping threshold
 /// based on the threshold of rule and the traffic shaping strategy.
